@@ -177,3 +177,92 @@ pub fn cmd_tables(file: &File, _reg: &mut Registry, out: &mut String) -> Res<()>
     .unwrap();
     Ok(())
 }
+
+// ------------------------------------------------------------------------------------------------
+// builder D: code tables written as `fn f(x: Enum) -> Result<u8, RadioError> { match x { Enum::V => Ok(lit), .. } }`
+// (lora-phy radio_kind_params.rs, sx1276.rs, sx1272.rs).  Emitted as `def f : Enum → Option Int`
+// (`none` = the `Err(..)` arms).  Fails loudly on any other body shape.
+
+fn d_find_fn<'a>(items: &'a [Item], name: &str) -> Option<(&'a Signature, &'a Block)> {
+    for it in items {
+        match it {
+            Item::Fn(f) if f.sig.ident == name => return Some((&f.sig, &f.block)),
+            Item::Impl(im) => {
+                for ii in &im.items {
+                    if let ImplItem::Fn(f) = ii {
+                        if f.sig.ident == name {
+                            return Some((&f.sig, &f.block));
+                        }
+                    }
+                }
+            }
+            _ => {}
+        }
+    }
+    None
+}
+
+fn d_lit(e: &Expr) -> Option<i128> {
+    match e {
+        Expr::Lit(ExprLit { lit: Lit::Int(i), .. }) => i.base10_parse::<i128>().ok(),
+        Expr::Paren(p) => d_lit(&p.expr),
+        _ => None,
+    }
+}
+
+pub fn d_result_match_table(file: &File, fname: &str, lean_name: &str, out: &mut String) -> Res<()> {
+    let (sig, block) = d_find_fn(&file.items, fname).ok_or(format!("code table fn {} not found", fname))?;
+    let enum_ty = sig
+        .inputs
+        .iter()
+        .find_map(|a| match a {
+            FnArg::Typed(pt) => match &*pt.ty {
+                Type::Path(p) => Some(p.path.segments.last().unwrap().ident.to_string()),
+                _ => None,
+            },
+            _ => None,
+        })
+        .ok_or(format!("{}: no typed parameter", fname))?;
+    let [Stmt::Expr(Expr::Match(m), None)] = block.stmts.as_slice() else {
+        return Err(format!("{}: body is not a single match", fname));
+    };
+    writeln!(out, "def {} : {} → Option Int", lean_name, enum_ty).unwrap();
+    for arm in &m.arms {
+        if arm.guard.is_some() {
+            return Err(format!("{}: guarded arm", fname));
+        }
+        let pat = match &arm.pat {
+            Pat::Path(p) => format!(".{}", p.path.segments.last().unwrap().ident),
+            Pat::Wild(_) => "_".to_string(),
+            _ => return Err(format!("{}: unsupported pattern", fname)),
+        };
+        let Expr::Call(c) = &*arm.body else { return Err(format!("{}: arm body is not Ok(..)/Err(..)", fname)) };
+        let Expr::Path(fp) = &*c.func else { return Err(format!("{}: arm body is not Ok(..)/Err(..)", fname)) };
+        let ctor = fp.path.segments.last().unwrap().ident.to_string();
+        let rhs = match ctor.as_str() {
+            "Ok" => {
+                let v = c.args.first().and_then(d_lit).ok_or(format!("{}: Ok(non-literal)", fname))?;
+                format!("some {}", v)
+            }
+            "Err" => "none".to_string(),
+            _ => return Err(format!("{}: arm body is not Ok(..)/Err(..)", fname)),
+        };
+        writeln!(out, "  | {} => {}", pat, rhs).unwrap();
+    }
+    writeln!(out).unwrap();
+    Ok(())
+}
+
+pub fn d_sf_value(f: &File, _r: &mut Registry, out: &mut String) -> Res<()> {
+    d_result_match_table(f, "spreading_factor_value", "spreading_factor_value", out)
+}
+pub fn d_bw_value(f: &File, _r: &mut Registry, out: &mut String) -> Res<()> {
+    d_result_match_table(f, "bandwidth_value", "bandwidth_value", out)
+}
+pub fn d_cr_value(f: &File, _r: &mut Registry, out: &mut String) -> Res<()> {
+    d_result_match_table(f, "coding_rate_value", "coding_rate_value", out)
+}
+pub fn d_cr_denom_value(f: &File, _r: &mut Registry, out: &mut String) -> Res<()> {
+    d_result_match_table(f, "coding_rate_denominator_value", "coding_rate_denominator_value", out)
+}
+
